@@ -90,7 +90,8 @@ fn gen_pair(class: NumClass, n: usize, seed: u64) -> (Vec<f32>, Vec<f32>) {
 
 /// Places `v` at byte offset `off` of a fresh buffer (LMDB values are unaligned).
 fn at_offset(v: &[f32], off: usize) -> Vec<u8> {
-    let mut buf = vec![0xA5u8; off + v.len() * 4 + 7];
+    // 0x4B4B4B4B is 1.33e7 as an f32: a kernel that reads past the end of the vector picks up large values
+    let mut buf = vec![0x4Bu8; off + v.len() * 4 + 512];
     for (i, x) in v.iter().enumerate() {
         buf[off + 4 * i..off + 4 * i + 4].copy_from_slice(&x.to_ne_bytes());
     }
@@ -121,7 +122,9 @@ fn within(metric: Metric, n: usize, a: &[f32], b: &[f32], got: f32, what: &str) 
         }
         return Ok(());
     }
-    let slack = e.tol + e.value.abs() * 2.0 * 5.96e-8 + (n as f64) * 2.4e-38;
+    // products may underflow (absolute slack); Manhattan has no products: differences of subnormals are exact
+    let underflow = if metric == Metric::Manhattan { 0.0 } else { (n as f64) * 2.4e-38 };
+    let slack = e.tol + e.value.abs() * 2.0 * 5.96e-8 + underflow;
     if !((got as f64 - e.value).abs() <= slack) {
         return Err(format!(
             "{what}: n={n} reported {got:e}, the definition gives {:e} (allowed error {:e}, actual {:e})",
@@ -612,7 +615,27 @@ pub struct BqCase {
 
 fn c12_case(c: &BqCase, st: &mut CaseStats) -> Result<(), Fail> {
     let mut m = Mix::new(c.seed);
-    let bits: Vec<bool> = (0..c.d).map(|_| m.chance(0.5)).collect();
+    // a third of the cases use word-structured patterns: whole 64-bit words (or bytes) all negative or all
+    // positive next to mixed ones (skipped / special-cased words in vectorised conversions)
+    let blocky = c.seed % 3 == 0;
+    let block = if c.seed % 2 == 0 { 64 } else { 8 };
+    let mut mode = 0u64;
+    let bits: Vec<bool> = (0..c.d)
+        .map(|i| {
+            if blocky {
+                if i % block == 0 {
+                    mode = m.below(3);
+                }
+                match mode {
+                    0 => false,
+                    1 => true,
+                    _ => m.chance(0.5),
+                }
+            } else {
+                m.chance(0.5)
+            }
+        })
+        .collect();
     let a = realise(&bits, (c.seed % 4) as usize);
     let h = match c.hsel % 5 {
         0 => 0,
